@@ -55,6 +55,9 @@ PROFILES: dict[str, dict[str, float]] = {
                  einsum=1, create=1.5, astype=0.5),
     "nan": dict(binop=5, cmp=2, where=2, minmax=3, math=0.5, reduce=1.5, logical=1, unary=1,
                 remap=1, index=1),
+    # C06: trees of + - * / (arrays and scalars in either position), powers, math functions,
+    # indexing, reshapes/transposes/unit-axis broadcasts feeding 1..n einsums/matmuls
+    "distrib": dict(binop=8, unary=0.6, math=1.2, einsum=5, matmul=3, remap=2.5, index=1.2),
     "elementwise": dict(binop=6, cmp=2, logical=1.5, where=2, minmax=1.5, unary=1.5, math=2.5,
                         astype=1.5, like=0.5, create=0.5),
 }
@@ -256,7 +259,8 @@ class Gen:
     def f_binop(self) -> int:
         op = self.rng.choices(
             ["add", "sub", "mul", "truediv", "floordiv", "mod", "pow", "and", "or", "xor"],
-            [4, 3, 4, 2, 1.2, 1.2, 1.2, 0.7, 0.7, 0.7])[0]
+            [4, 3, 4, 2, 1.2, 1.2, 1.2, 0.7, 0.7, 0.7] if self.profile != "distrib"
+            else [4, 4, 4, 3.5, 0, 0, 1, 0, 0, 0])[0]
         kinds = "biufc"
         if op in ("and", "or", "xor"):
             kinds = "bi"
@@ -621,7 +625,9 @@ class Gen:
 
     def f_remap(self) -> int:
         op = self.rng.choice(["roll", "transpose", "T", "reshape", "reshape", "expand_dims",
-                              "squeeze", "broadcast_to", "pad"])
+                              "squeeze", "broadcast_to", "pad"] if self.profile != "distrib"
+                             else ["transpose", "T", "reshape", "reshape", "expand_dims",
+                                   "squeeze", "broadcast_to"])
         x = self.pick_or_new(None)
         xs = self.shape(x)
         nd = len(xs)
